@@ -535,6 +535,11 @@ class Run:
             "assumptions": self.assumptions, "wall_s": round(time.time() - self.t0, 2), "violations": nviol,
         }
         ev["coverage"].update(self.extra)
+        if st["paths"] < 1 or st["transitions"] < 1:
+            # nothing was explored (the run stopped on an unsupported construct / build failure): not model-checking evidence
+            ev["level"] = "other"
+            ev["coverage"]["explanation"] = "no symbolic path was completed in this run (see `inconclusive`); nothing is claimed. " + ev["coverage"]["explanation"]
+            ev["coverage"]["exhaustive"] = False
         os.makedirs(os.path.join(VERIF, "evidence"), exist_ok=True)
         with open(os.path.join(VERIF, "evidence", self.prop + ".json"), "w") as f:
             json.dump(ev, f, indent=1, default=str)
@@ -564,6 +569,8 @@ def main(argv):
             scen = json.load(open(a.replay))
             return mod.replay(run, scen)
         nshards = getattr(mod, "SHARDS", {}).get(tier, 1) if shard is None else 1
+        if os.environ.get("VERIF_SHARDS") and nshards > 1:
+            nshards = max(2, int(os.environ["VERIF_SHARDS"]))         # development aid: fewer workers next to other runs
         if nshards > 1:
             # the parent dumps the MIR and builds the replay driver once; workers reuse them
             if hasattr(mod, "prepare"):
